@@ -19,7 +19,7 @@ class C16(Spec):
             "2^31, 2^63-1 and random), written and parsed back; CL: Content-Length 0, 1, 2^32-1, 2^32, 2^32+1, 2^63, 2^64-1 "
             "and random; EN/CN/EX: every enum value of Content-/Transfer-Encoding, Connection, Expect; HO: Host with "
             "names, dotted quads and bracketed IPv6 with ports 1, 79, 80, 81, 65535; SV: single- and multi-token Server; T: "
-            "text-level double round trip (parse, write, parse, write) for every registered header incl. Date, Content-Type, "
+            "Content-Type built through the API with every quality 0..100 (written, parsed by the header and by the request parser, written again) and Accept texts with every quality; text-level double round trip (parse, write, parse, write) for every registered header incl. Date, Content-Type, "
             "Accept values and arbitrary strings; L: requests whose header names (registered and unknown, duplicates in "
             "other capitalisation) are looked up under random capitalisations. non-trivial = value that is not the empty "
             "string; distinct by case line")
@@ -50,6 +50,11 @@ class C16(Spec):
         for h in [b"example.com", b"a", b"localhost", b"127.0.0.1", b"10.0.0.255", b"[::1]", b"[2001:db8::1]", b"x-y.z"]:
             for p in [1, 79, 80, 81, 8080, 65535]:
                 cases.append("HO %s %d" % (pv.hexs(h), p))
+        # Content-Type / Accept with every quality value 0.00 .. 1.00 (two decimals: 101 values)
+        for q in range(101):
+            cases.append("CQ %d %d %d" % (rng.choice([1, 2, 3, 4]), rng.choice([1, 2, 3, 4, 5]), q))
+            qt = "1" if q == 100 else ("0" if q == 0 else ("0.%02d" % q).rstrip("0"))
+            cases.append("AQ " + pv.hexs(("text/html; q=%s, */*; q=0.%02d" % (qt, (q * 7) % 100 or 1)).encode()))
         for toks in [[b"pistache/0.1"], [b"a"], [b"Apache/2.4", b"(Unix)"], [b"a", b"b", b"c"]]:
             cases.append("SV " + " ".join(pv.hexs(x) for x in toks))
         texts = {
@@ -130,6 +135,16 @@ class C16(Spec):
                 return "Cache-Control %s written as %r parses back as %s" % (want, pv.unhex(o[1]), o[2] if len(o) > 2 else "?")
             if o[3] != o[1]:
                 return "Cache-Control written twice gives different text: %r vs %r" % (pv.unhex(o[1]), pv.unhex(o[3]))
+        elif t[0] == "CQ":
+            if len(o) < 5 or o[2] != t[3] or o[3] != t[3]:
+                return "Content-Type with quality %s/100 written as %r parses back with quality %s (request parser: %s)" % (t[3], pv.unhex(o[1]), o[2] if len(o) > 2 else "?", o[3] if len(o) > 3 else "?")
+            if o[4] != o[1]:
+                return "Content-Type written twice gives different text: %r vs %r" % (pv.unhex(o[1]), pv.unhex(o[4]))
+        elif t[0] == "AQ":
+            import re as _re
+            want = [str(round(float(x) * 100)) for x in _re.findall(r"q=([0-9.]+)", pv.unhex(t[1]).decode())]
+            if o[1:1 + len(want)] != want:
+                return "Accept %r: qualities read as %s, the text says %s" % (pv.unhex(t[1]), o[1:-1], want)
         elif t[0] == "CL":
             if o[1] != t[1] or o[2] != t[1]:
                 return "Content-Length %s -> text %s -> %s" % (t[1], o[1], o[2])
